@@ -31,7 +31,7 @@ import Cjet.Generated.Cjson
 
 namespace Cjet.Cjson
 
-open Cjet.Generated.Cjson (nestingLimit numberBufSize objCommaGuard)
+open Cjet.Generated.Cjson (nestingLimit numberBufSize objCommaGuard printNumberExact)
 
 /-! ### trees -/
 
@@ -566,6 +566,32 @@ def printMembers (num : Bytes → Bytes) : List (Bytes × Tree) → Bytes
   | (k, v) :: ms => 0x2C :: (printString k ++ 0x3A :: (printValue num v ++ printMembers num ms))
 end
 
+/-! ### print_number (the C library as an oracle) -/
+
+/-- The C library functions parse_number / print_number rely on, as functions on IEEE-754 images. -/
+structure NumOracle where
+  /-- `sprintf("%1.15g", d)` -/
+  fmt15 : UInt64 → Bytes
+  /-- `sprintf("%1.17g", d)` -/
+  fmt17 : UInt64 → Bytes
+  /-- `strtod` / `sscanf("%lg")` of a complete number text -/
+  scan : Bytes → UInt64
+  /-- `compare_double` (relative epsilon; only the code before the repair F65 asks it) -/
+  close : UInt64 → UInt64 → Bool
+
+/-- neither NaN nor an infinity -/
+def isFinite (d : UInt64) : Bool := (d >>> 52) &&& 0x7FF != 0x7FF
+
+/-- print_number: NaN/Inf print as `null`; otherwise the 15-digit text when it is accepted, else the 17-digit
+    text.  `exact` = the acceptance test compares the re-scanned double bit for bit (repaired code). -/
+def printNumber (exact : Bool) (o : NumOracle) (d : UInt64) : Bytes :=
+  if !isFinite d then litNull
+  else if (if exact then o.scan (o.fmt15 d) == d else o.close (o.scan (o.fmt15 d)) d) then o.fmt15 d
+  else o.fmt17 d
+
+/-- the text print_value produces for a parsed number token, by the tree under test -/
+def numText (o : NumOracle) (tok : Bytes) : Bytes := printNumber printNumberExact o (o.scan tok)
+
 /-! ### tree measures used by the theorems -/
 
 mutual
@@ -617,6 +643,21 @@ def Tree.mapNumList (num : Bytes → Bytes) : List Tree → List Tree
 def Tree.mapNumMembers (num : Bytes → Bytes) : List (Bytes × Tree) → List (Bytes × Tree)
   | [] => []
   | (k, v) :: ms => (k, v.mapNum num) :: Tree.mapNumMembers num ms
+end
+
+mutual
+/-- every number token of the tree satisfies `P` -/
+def Tree.AllNum (P : Bytes → Prop) : Tree → Prop
+  | .num tok => P tok
+  | .arr items => Tree.AllNumList P items
+  | .obj ms => Tree.AllNumMembers P ms
+  | _ => True
+def Tree.AllNumList (P : Bytes → Prop) : List Tree → Prop
+  | [] => True
+  | t :: ts => t.AllNum P ∧ Tree.AllNumList P ts
+def Tree.AllNumMembers (P : Bytes → Prop) : List (Bytes × Tree) → Prop
+  | [] => True
+  | (_, v) :: ms => v.AllNum P ∧ Tree.AllNumMembers P ms
 end
 
 mutual
